@@ -109,6 +109,10 @@ Lemma shape_add_call :           (* add_call: skip if the key is present, else a
   dep_key = [KSelfName; KSelfEp; KTargetName; KTargetEp].
 Proof. split; reflexivity. Qed.
 
+Lemma shape_views_loop :         (* Views.gen_loop false: own attributes, fresh union, fresh builder, shared set untouched *)
+  views_loop = [VOwnExcludes; VOwnPassthrough; VBuildFreshUnion; VParamsFromThisBuilder; VRender].
+Proof. reflexivity. Qed.
+
 Theorem source_shape :
   (forall m listed ex x src sep s t e,
      my_callers m listed ex x src sep s t e = interp m (seeds m listed ex x) [] ex no_walk handler_my_callers src sep s t e) /\
